@@ -102,6 +102,15 @@ func c15Child(in json.RawMessage) (interface{}, error) {
 	// are known to be on disk (persisted call-back with a nil error)
 	states := make([][]string, cs.Writers)
 	persistedUpTo := make([]int32, cs.Writers)
+	// unsafe mode only (safe batchers would wait for the held persister): the persister is stopped right
+	// after it has written its n-th snapshot file, the batchers go on and finish (their batches stay in
+	// memory), then Close is started and the persister let go: what is on disk is that snapshot file
+	var preHold *mon.Hold
+	if cs.CloseGate == "after-snp" && cs.Unsafe {
+		preHold = rg.Sched.HoldNth(int(uint64(cs.Seed)%3), func(p mon.Point) bool {
+			return p.Name == "persist.end" && p.Kind == ".snp" && p.Role == "persister"
+		})
+	}
 	var wg sync.WaitGroup
 	stopReaders := int32(0)
 	for wi := 0; wi < cs.Writers; wi++ {
@@ -222,7 +231,14 @@ func c15Child(in json.RawMessage) (interface{}, error) {
 	// signals the background goroutines and waits for them), then the goroutine is let go and finds the
 	// writer closing half-way through its hand-over
 	var gateHold *mon.Hold
-	if cs.CloseGate != "" {
+	if preHold != nil {
+		if preHold.Reached(1500 * time.Millisecond) {
+			gateHold = preHold
+			op("close_right_after_a_snapshot_file_with_newer_batches_in_memory")
+		} else {
+			preHold.Release()
+		}
+	} else if cs.CloseGate != "" {
 		pred := map[string]func(p mon.Point) bool{
 			// the merger just before it hands its merge to the introducer; in the yield build instead the
 			// introducer at any yield point inside introduceMerge (the merge is handed over, not yet answered)
@@ -458,9 +474,13 @@ func runC15(c *vk.Ctx) {
 	logDir := c.TempDir("racelogs-")
 	var cases []interface{}
 	for i := 0; i < n; i++ {
+		gate := []string{"", "merge-intro", "merge-begin", "persist-intro", "persist-snp", "load-seg", "merge-intro"}[i%7]
+		if i%8 == 3 {
+			gate = "after-snp" // (an unsafe case)
+		}
 		cases = append(cases, c15Case{Seed: vk.SubSeed(c.Seed, fmt.Sprintf("c15-%d", i)), Dir: c.TempDir("c15-"), Writers: 2 + i%3, Readers: 1 + i%3, Procs: []int{1, 2, 4, 16}[i%4],
-			Unsafe: i%4 == 3, MemMerge: i%2 == 0 || i%8 == 3, StatsInCB: i%5 == 4, RaceLogDir: logDir,
-			CloseGate: []string{"", "merge-intro", "merge-begin", "persist-intro", "persist-snp", "load-seg", "merge-intro"}[i%7]})
+			Unsafe: i%4 == 3, MemMerge: i%2 == 0 || (i%4 == 3 && i%16 != 15), StatsInCB: i%5 == 4, RaceLogDir: logDir,
+			CloseGate: gate})
 	}
 	// the same workload on the second bundled segment format (two probe runs)
 	for i := 0; i < 2; i++ {
